@@ -830,7 +830,7 @@ impl Session {
                     out.push(Mismatch { prop: "C02", step, what: format!("node {n} function ran {} times in one stabilise: {runs:?}", runs.len()) });
                 }
                 match want.get(n) {
-                    None if opt(*n) => {}
+                    None if opt(*n) && !e["stale"].get(n - 1).and_then(|b| b.as_bool()).unwrap_or(false) => {}
                     None => {
                         let stale = e["stale"].get(n - 1).and_then(|b| b.as_bool()).unwrap_or(false);
                         let prop = if stale { "C03" } else if in_cone(*n) { "C06" } else { "C05" };
